@@ -190,10 +190,11 @@ func (s *Stash) clear(start, end int) {
 			end = len(s.forms) - 1
 		}
 		if start <= end {
+			// Positions are counted from the most recent form as with Nth.
 			newEnd := len(s.forms) - (end - start) - 1
-			copy(s.forms[:start], s.forms[end:])
+			copy(s.forms[len(s.forms)-end-1:], s.forms[len(s.forms)-start:])
 			// Make sure references are removed so GC can collect them.
-			for i := end + 1; i < len(s.forms); i++ {
+			for i := newEnd; i < len(s.forms); i++ {
 				s.forms[i] = nil
 			}
 			s.forms = s.forms[:newEnd]
